@@ -73,8 +73,10 @@ def run_assign(case, workdir=None, keep=False):
                 rows.append({"id": r["id"], "spec": r["spec"], "pep": r["key"][0], "tgt": r["tgt"],
                              "lvl": {lv: r["key"][1 + j] for j, lv in enumerate(extra)},
                              "feats": [float(r["rank"]), float(-r["rank"])]})
-            df = mk.build_table(rows, label_enc=case.get("label_enc", "1/-1"), extra_levels=extra)
-            ds = mk.make_dataset(df, wd / ("in%d.%s" % (c, case.get("fmt", "pin"))), extra_levels=extra,
+            key = ("ScanNr", "ret_time", "ExpMass") if case.get("key_rt") else ("ScanNr", "ExpMass")
+            df = mk.build_table(rows, label_enc=case.get("label_enc", "1/-1"), extra_levels=extra, key_cols=key,
+                                missing_rt=case.get("key_rt") == "missing")
+            ds = mk.make_dataset(df, wd / ("in%d.%s" % (c, case.get("fmt", "pin"))), extra_levels=extra, key_cols=key,
                                  row_group=case.get("row_group"))
             dsets.append(ds)
             scores.append(np.array([r["s4"] / 4.0 for r in coll["rows"]], dtype=float))
